@@ -1113,3 +1113,39 @@ FUNCTIONS += [
         ret_rules=[(r'^ARG_DISPATCH$', 'if N ≤ size then some (arg_in_range N) else arg_out_of_range')],
     ),
 ]
+
+# ----------------------------------------------------------------------------------------------
+# report routing (C15, C16) and the compile-time TIMES (C03): statement traces
+
+FUNCTIONS += [
+    dict(
+        name='send_report', cxx='trompeloeil::send_report', file=MOCK, module='SendReport',
+        header=r'\n\s*send_report\(\s*severity s,\s*location loc,\s*std::string const &msg\)',
+        pre=[(r'reporter<T>::send', 'REPORTER_SEND')],
+        lean_sig=': List Act', acts=True, prologue=['let mut acts : List Act := []'], epilogue='return acts', void_result='acts',
+    ),
+    dict(
+        name='send_ok_report', cxx='trompeloeil::send_ok_report', file=MOCK, module='SendOkReport',
+        header=r'\n\s*send_ok_report\(\s*std::string const &msg\)',
+        pre=[(r'reporter<T>::sendOk', 'REPORTER_SEND_OK')],
+        lean_sig=': List Act', acts=True, prologue=['let mut acts : List Act := []'], epilogue='return acts', void_result='acts',
+    ),
+    dict(
+        name='reporter_send', cxx='reporter<T>::send', file=MOCK, module='ReporterSend',
+        header=r'void reporter<T>::\s*send\(\s*severity s,\s*char const \*file,\s*unsigned long line,\s*char const \*msg\)',
+        lean_sig=': List Act', acts=True, prologue=['let mut acts : List Act := []'], epilogue='return acts', void_result='acts',
+    ),
+    dict(
+        name='reporter_send_ok', cxx='reporter<T>::sendOk', file=MOCK, module='ReporterSendOk',
+        header=r'void reporter<T>::\s*sendOk\(char const\* msg\)',
+        lean_sig=': List Act', acts=True, prologue=['let mut acts : List Act := []'], epilogue='return acts', void_result='acts',
+    ),
+    dict(
+        name='times_action', cxx='times::action (TIMES / AT_LEAST / AT_MOST)', file=MOCK, module='TimesAction',
+        header=r'action\(call_modifier<Matcher, modifier_tag, Parent>&&\s*m,\s*multiplicity<L, H>\)',
+        # the static_asserts (compile-time only; tabulated by tools/translate.py for C19) are cut before parsing
+        pre=[(r'(?s)static_assert\s*\((?:[^;"]|"(?:\\.|[^"\\])*")*\)\s*;', ''), (r'return\s*\{\s*std::move\(m\)\.matcher\s*\}\s*;', 'return;')],
+        lean_sig=': List Act', acts=True, prologue=['let mut acts : List Act := []'], epilogue='return acts', void_result='acts',
+        decl_ignore=LOCK_DECL,
+    ),
+]
